@@ -14,7 +14,7 @@ Events == ndJsonDeserialize(IOEnv.TRACE_FILE)
 VARIABLE i
 Init == i = 1
 ClauseOf(c) == CASE c.m \in {"select", "selectstr", "distinct"} -> "SELECT" [] c.m = "from_" -> "FROM" [] c.m = "where" -> "WHERE"
-                 [] c.m = "prewhere" -> "PREWHERE" [] c.m = "groupby" -> "GROUP BY" [] c.m = "having" -> "HAVING" [] c.m = "orderby" -> "ORDER BY"
+                 [] c.m = "prewhere" -> "PREWHERE" [] c.m = "groupby" -> "GROUP BY" [] c.m = "having" -> "HAVING" [] c.m \in {"orderby", "orderbystr"} -> "ORDER BY" [] c.m = "groupbystr" -> "GROUP BY"
                  [] c.m \in {"limit", "fetch_next"} -> "LIMIT" [] c.m = "offset" -> "OFFSET" [] c.m = "join" -> "JOIN" [] c.m = "into" -> "INTO"
                  [] c.m \in {"insert", "replace"} -> "VALUES" [] c.m = "columns" -> "COLUMNS" [] c.m = "update" -> "UPDATE" [] c.m = "set" -> "SET"
                  [] c.m = "delete" -> "DELETE" [] c.m \in {"on_conflict", "do_nothing", "do_update"} -> "ON CONFLICT" [] OTHER -> c.m
